@@ -81,6 +81,14 @@ func bookkeeping(c Case, r *result, u *vf.Unit) {
 	if r.forgeSkipped != "" {
 		u.Class("forge-skipped:" + r.forgeSkipped)
 	}
+	if a := r.advIdle["c"]; a.seen && r.S.conn != nil {
+		switch {
+		case !a.present:
+			u.Class("peer-without-max-idle-timeout:absent")
+		case a.ms == 0:
+			u.Class("peer-without-max-idle-timeout:zero")
+		}
+	}
 	if r.forgeAfterKeyUpdate {
 		u.Class("forge-after-key-update")
 	}
